@@ -2,19 +2,47 @@
 from common import py_trees, Status, ST, TS
 
 
+class _Falsy(object):
+    """user behaviours may define __len__ / __bool__: every pool object is falsy, so the library has to test "is there
+    a child / a parent" by identity (`is None`), never by truth value"""
+
+    def __len__(self):
+        return 0
+
+
+class FSequence(_Falsy, py_trees.composites.Sequence):
+    pass
+
+
+class FSelector(_Falsy, py_trees.composites.Selector):
+    pass
+
+
+class FParallel(_Falsy, py_trees.composites.Parallel):
+    pass
+
+
+class FRunning(_Falsy, py_trees.behaviours.Running):
+    pass
+
+
 class HeapRun(object):
     def __init__(self, kinds):
         py_trees.blackboard.Blackboard.clear()
         self.pool = []
+        # the composites are all constructed from ONE (empty) list object of the caller, which the caller goes on using:
+        # a composite must keep its own list of children
+        self.callers_list = []
         for i, k in enumerate(kinds):
             if k == "Q":
-                b = py_trees.composites.Sequence(name="o%d" % i, memory=True)
+                b = FSequence(name="o%d" % i, memory=True, children=self.callers_list)
             elif k == "S":
-                b = py_trees.composites.Selector(name="o%d" % i, memory=True)
+                b = FSelector(name="o%d" % i, memory=True, children=self.callers_list)
             elif k == "P":
-                b = py_trees.composites.Parallel(name="o%d" % i, policy=py_trees.common.ParallelPolicy.SuccessOnAll())
+                b = FParallel(name="o%d" % i, policy=py_trees.common.ParallelPolicy.SuccessOnAll(),
+                              children=self.callers_list)
             else:
-                b = py_trees.behaviours.Running(name="o%d" % i)
+                b = FRunning(name="o%d" % i)
             self.pool.append(b)
 
     def idx(self, b):
